@@ -111,6 +111,10 @@ pub(crate) trait SidecarMeta: Serialize + DeserializeOwned + Send + Sync + 'stat
 }
 
 fn unix_ms() -> u64 {
+    #[cfg(feature = "verif")]
+    if let Some(now_ms) = crate::verif::now_ms() {
+        return now_ms;
+    }
     std::time::SystemTime::now()
         .duration_since(std::time::UNIX_EPOCH)
         .map(|d| d.as_millis() as u64)
@@ -836,6 +840,8 @@ impl<T: ObjectStore, M: SidecarMeta> SidecarStore<T, M> {
             .duration_since(std::time::UNIX_EPOCH)
             .map(|d| d.as_millis() as u64)
             .unwrap_or(0);
+        #[cfg(feature = "verif")]
+        let floor_ms = crate::verif::now_ms().unwrap_or(floor_ms);
 
         // Mark: snapshot every commit point.
         let mut referenced: HashMap<Path, PayloadRef> = HashMap::new();
